@@ -580,22 +580,35 @@ func (l *Lexer) SkipStreamEOL() error {
 // ReadBytes reads exactly n bytes from the underlying reader.
 // Used for reading binary stream data where tokenization is not appropriate.
 func (l *Lexer) ReadBytes(n int) ([]byte, error) {
-	data := make([]byte, n)
-	totalRead := 0
+	if n < 0 {
+		return nil, fmt.Errorf("invalid byte count: %d", n)
+	}
 
-	for totalRead < n {
-		bytesRead, err := l.reader.Read(data[totalRead:])
-		totalRead += bytesRead
+	// n usually comes from the file (a stream's /Length), so it must not size the
+	// allocation up front: grow the buffer in bounded steps as the data actually arrives.
+	const chunkSize = 1 << 20
+	capHint := n
+	if capHint > chunkSize {
+		capHint = chunkSize
+	}
+	data := make([]byte, 0, capHint)
+
+	for len(data) < n {
+		want := n - len(data)
+		if want > chunkSize {
+			want = chunkSize
+		}
+		start := len(data)
+		data = append(data, make([]byte, want)...)
+		bytesRead, err := io.ReadFull(l.reader, data[start:])
 		l.pos += int64(bytesRead)
+		data = data[:start+bytesRead]
 
-		if err == io.EOF && totalRead < n {
-			return data[:totalRead], fmt.Errorf("unexpected EOF: expected %d bytes, got %d", n, totalRead)
+		if err == io.EOF || err == io.ErrUnexpectedEOF {
+			return data, fmt.Errorf("unexpected EOF: expected %d bytes, got %d", n, len(data))
 		}
-		if err != nil && err != io.EOF {
-			return data[:totalRead], err
-		}
-		if err == io.EOF {
-			break
+		if err != nil {
+			return data, err
 		}
 	}
 
